@@ -291,60 +291,93 @@ DOC_CMP = {  # frozen from the docstring in builtin-cmp.cc / doc: word -> (relat
 
 
 def a3c(prog):
-    """comparison alias table decided completely"""
+    """comparison words decided completely: the registration table (word -> builtin class, polarity) is read from the init function;
+    what a (class, polarity) pair MEANS is decided by building its predicate with the class's own build_pred and interpreting
+    result() (through maybe_invert / pred_not / comparison_result) on all pairs of abstract values of two types."""
+    from cxxobj import CxxEvaluator, Obj, Vec, OutOfBounds
+    from absint import Thrown
     inst, findings = [], []
-    # builtin class -> relation
-    rel_of = {}
+    cmp_enum = None
+    for e in prog.enums.values():
+        if e["q"] == "cmp_result":
+            cmp_enum = {c["n"]: ("enum", c["n"], c["v"]) for c in e["consts"]}
+    if cmp_enum is None:
+        raise Broken("enum cmp_result vanished")
+
+    class El:
+        def __init__(self, t, r):
+            self.t, self.r = t, r
+            self.addr = id(self)
+
+        def copy_value(self):
+            return self
+
+    class Ty:
+        def __init__(self, c):
+            self.m_code = c
+
+        def copy_value(self):
+            return Ty(self.m_code)
+
+    def el_cmp(ev, o, a):
+        if o.t != a[0].t:
+            return cmp_enum["fail"]
+        return cmp_enum["less"] if o.r < a[0].r else (cmp_enum["greater"] if o.r > a[0].r else cmp_enum["equal"])
+    hooks = {
+        "zw_value::cmp": el_cmp,
+        "zw_value::get_type": lambda ev, o, a: Ty(o.t),
+        "value_type::operator<": lambda ev, o, a: o.m_code < a[0].m_code,
+        "stack::get": lambda ev, o, a: o.m_values.items[len(o.m_values.items) - 1 - int(a[0])],
+    }
+    ev = CxxEvaluator(hooks, {}, prog=prog)
+    from cxxobj import OStream
+    ev.globals["std::cerr"] = OStream()
+    vals = [El(1, 0), El(1, 1), El(2, 0), El(2, 1)]
+    rel_of = {}          # (class, polarity) -> (relation, positive) as far as the evaluation can tell
+
+    def pr(r):
+        if isinstance(r, bool):
+            return "yes" if r else "no"
+        return r[1] if isinstance(r, tuple) else r
     for cls in ("builtin_eq", "builtin_lt", "builtin_gt"):
         bp = prog.func_opt(cls + "::build_pred")
         if bp is None:
             raise Broken("anchor %s::build_pred vanished" % cls)
-        mk = [c for c in calls(bp["body"]) if c.get("f", "").startswith("std::make_unique<")]
-        inv = [c for c in calls(bp["body"]) if c.get("fn") == "maybe_invert"]
-        if len(mk) != 1 or len(inv) != 1:
-            raise Broken("%s::build_pred has an unmodelled shape" % cls)
-        pol = unwrap(inv[0]["a"][1])
-        if not (isinstance(pol, dict) and pol.get("k") == "mem" and pol["n"] == "m_positive"):
-            findings.append({"key": "A3c:%s:polarity" % cls, "where": bp["l"], "msg": "%s::build_pred does not pass m_positive to maybe_invert" % cls, "detail": None})
-        pcls = mk[0]["targs"][0]
-        res = [f for f in prog.funcs.values() if f.get("cls") == pcls and f["n"] == "result"]
-        if len(res) != 1:
-            raise Broken("predicate class %s has no unique result()" % pcls)
-        cr = [c for c in calls(res[0]["body"]) if c.get("fn") == "comparison_result"]
-        if len(cr) != 1:
-            raise Broken("%s::result does not call comparison_result" % pcls)
-        want = unwrap(cr[0]["a"][1])
-        if not (isinstance(want, dict) and want.get("d") == "enum"):
-            raise Broken("comparison_result relation argument is not an enumerator")
-        rel_of[cls] = want["n"]
-        # default names
-        nm = prog.func_opt(cls + "::name")
-        if nm is None:
-            raise Broken("%s::name vanished" % cls)
-        g = CFG(nm)
-        for n in g.nodes:
-            if n.kind == "ret":
-                s = _strval(n.ast)
-                # which branch of `if (m_positive)`
-                pass
-    # maybe_invert: positive -> pred, else pred_not
-    mi = prog.func_opt("maybe_invert")
-    if mi is None:
-        raise Broken("anchor maybe_invert vanished")
-    g = CFG(mi)
-    shape_ok = False
-    for n in g.nodes:
-        if n.kind == "cond":
-            c = unwrap(n.ast)
-            if isinstance(c, dict) and c.get("k") == "ref" and c.get("n") == "positive":
-                tr = [g.nodes[t] for t, lab in n.succs if lab is True]
-                fa = [g.nodes[t] for t, lab in n.succs if lab is False]
-                t_ok = tr and tr[0].kind == "ret" and isinstance(unwrap(tr[0].ast), dict) and unwrap(tr[0].ast).get("k") == "ref"
-                f_ok = fa and fa[0].kind == "ret" and any(c2.get("f", "").startswith("std::make_unique<pred_not") for c2 in calls(fa[0].ast))
-                shape_ok = bool(t_ok and f_ok)
-    inst.append(("A3c:maybe_invert", {"positive_keeps_pred_negative_wraps_pred_not": shape_ok}))
-    if not shape_ok:
-        findings.append({"key": "A3c:maybe_invert", "where": mi["l"], "msg": "maybe_invert no longer maps positive->pred, negative->pred_not(pred)", "detail": None})
+        for pol in (True, False):
+            b = Obj(cls)
+            b.m_positive = pol
+            try:
+                pred = ev.call(bp, b, [Obj("layout")])
+                table = {}
+                for x in vals:            # A: below TOS
+                    for y in vals:        # B: TOS
+                        st = Obj("stack")
+                        st.m_values = Vec([x, y], "values")
+                        r = ev.call(ev._resolve_virtual(pred._cls, "result", 2), pred, [Obj("scon"), st]) if isinstance(pred, Obj) else None
+                        table[(x.t, x.r, y.t, y.r)] = pr(r)
+            except (OutOfBounds, Thrown) as x_:
+                raise Broken("%s (polarity %s) cannot be evaluated: %s" % (cls, pol, x_))
+            order = lambda k: ((k[0], k[1]), (k[2], k[3]))
+            meaning = None
+            for rel, fn in (("equal", lambda a_, b_: a_ == b_), ("less", lambda a_, b_: a_ < b_), ("greater", lambda a_, b_: a_ > b_)):
+                for positive in (True, False):
+                    if all(v == ("yes" if fn(*order(k)) == positive else "no") for k, v in table.items()):
+                        meaning = (rel, positive)
+            key = "A3c:%s:%s" % (cls, "+" if pol else "-")
+            inst.append((key, {"means": meaning}))
+            if meaning is None:
+                bad = [k for k, v in table.items() if v not in ("yes", "no")]
+                ex = next(iter(k for k in table if k[0] != k[2]), None)
+                findings.append({"key": key, "where": bp["l"],
+                                 "msg": "the predicate that %s builds with polarity %s is neither a relation of the total order (first by type, then by value) nor its complement: e.g. A=(type %d, %d) B=(type %d, %d) answers %s%s" % (
+                                     cls, "?" if pol else "!", ex[0], ex[1], ex[2], ex[3], table[ex], "; answers other than yes/no: %d" % len(bad) if bad else ""), "detail": None})
+            rel_of[(cls, pol)] = meaning
+    # positive and negative polarity of one class must be complementary
+    for cls in ("builtin_eq", "builtin_lt", "builtin_gt"):
+        p, n_ = rel_of.get((cls, True)), rel_of.get((cls, False))
+        if p and n_ and not (p[0] == n_[0] and p[1] != n_[1]):
+            findings.append({"key": "A3c:%s:polarity" % cls, "where": prog.func_opt(cls + "::build_pred")["l"],
+                             "msg": "?x and !x built by %s are not complementary: %s vs %s" % (cls, p, n_), "detail": None})
     # registrations in the init function
     reg = {}
     found_fn = None
@@ -358,7 +391,7 @@ def a3c(prog):
                 for v in x["vars"]:
                     i = unwrap(v.get("init"))
                     if isinstance(i, dict) and i.get("k") == "call" and i.get("f", "").startswith("std::make_shared<builtin_") \
-                       and i.get("targs") and i["targs"][0] in rel_of:
+                       and i.get("targs") and i["targs"][0] in ("builtin_eq", "builtin_lt", "builtin_gt"):
                         b = unwrap(i["a"][0]) if i["a"] else None
                         if not (isinstance(b, dict) and b.get("k") == "bool"):
                             raise Broken("comparison builtin at %s not constructed with a literal polarity" % v["l"])
@@ -387,7 +420,8 @@ def a3c(prog):
                                         name = _strval(g.nodes[t].ast)
                         if name is None:
                             raise Broken("%s::name has an unmodelled shape" % cls)
-                    reg.setdefault(name, []).append((rel_of[cls], pos, c["l"]))
+                    m_ = rel_of.get((cls, pos))
+                    reg.setdefault(name, []).append((m_[0] if m_ else None, (m_[1] if m_ else None), c["l"]))
     if found_fn is None:
         raise Broken("comparison builtins are no longer registered from named objects (unmodelled shape)")
     for name, want in sorted(DOC_CMP.items()):
